@@ -278,7 +278,7 @@ func (hs *serverHandshakeStateGM) checkForResumption() bool {
 	}
 
 	// Check that we also support the ciphersuite from the session.
-	if !hs.setCipherSuite(hs.sessionState.cipherSuite, c.config.cipherSuites(), hs.sessionState.vers) {
+	if !hs.setCipherSuite(hs.sessionState.cipherSuite, getCipherSuites(c.config), hs.sessionState.vers) {
 		return false
 	}
 
@@ -302,7 +302,7 @@ func (hs *serverHandshakeStateGM) doResumeHandshake() error {
 	// that we're doing a resumption.
 	hs.hello.sessionId = hs.clientHello.sessionId
 	hs.hello.ticketSupported = hs.sessionState.usedOldKey
-	hs.finishedHash = newFinishedHash(c.vers, hs.suite)
+	hs.finishedHash = newFinishedHashGM(hs.suite)
 	hs.finishedHash.discardHandshakeBuffer()
 	hs.finishedHash.Write(hs.clientHello.marshal())
 	hs.finishedHash.Write(hs.hello.marshal())
